@@ -123,12 +123,13 @@ Definition LInv (c : cfg) (l0 : ledger) (s : lstate) : Prop := LInvB c s /\ LInv
 Definition who_of (o : lop) : Z :=
   match o with
   | Deposit w _ _ _ _ _ | Cancel w _ _ _ | Withdraw w _ _ _ _ _ => w
-  | AutoFill _ _ _ _ _ _ _ => 0
+  | AutoFill _ _ _ _ _ _ => 0
   end.
 
 Definition fill_env (s : lstate) (o : lop) : Prop :=
   match o with
-  | AutoFill debt coll prem D whos spent _ => spent <= snd (fill_recs debt coll prem D whos s)
+  | AutoFill debt coll prem fills spent _ =>
+      match fill_recs debt coll prem fills s with Some (_, ch) => spent <= ch | None => True end
   | _ => True
   end.
 
@@ -266,42 +267,37 @@ Qed.
 Definition denom_is (c : cfg) (asset d : Z) : bool :=
   match denom_of c asset with Some dd => dd =? d | None => false end.
 
-Lemma fill_recs_spec c debt coll prem D whos : forall s s' ch,
-  fill_recs debt coll prem D whos s = (s', ch) -> LInvB c s ->
-  LInvB c s' /\ led s' = led s /\
+Lemma fill_recs_spec c debt coll prem fills : forall s s' ch,
+  fill_recs debt coll prem fills s = Some (s', ch) -> LInvB c s ->
+  LInvB c s' /\ led s' = led s /\ 0 <= ch /\
   forall d, sum_denom d s' = sum_denom d s - (if denom_is c debt d then ch else 0).
 Proof.
-  induction whos as [|w rest IH]; intros s s' ch; cbn [fill_recs].
-  - intros E HB. injection E as <- <-. split; [exact HB|]. split; [reflexivity|]. intros d. destruct (denom_is c debt d); lia.
+  induction fills as [|[w bid] rest IH]; intros s s' ch; cbn [fill_recs].
+  - intros E HB. injection E as <- <-. split; [exact HB|]. split; [reflexivity|]. split; [lia|]. intros d. destruct (denom_is c debt d); lia.
   - set (k := mkK debt coll prem w).
-    destruct (aget keq k (recs s)) as [r|] eqn:Hg; [|apply IH].
-    intros E HB. pose proof HB as (Hnn & Hdn & Htot).
+    destruct (aget keq k (recs s)) as [r|] eqn:Hg; [|discriminate].
+    destruct (Z.ltb_spec bid 0) as [|Hb0]; [discriminate|]. destruct (Z.gtb_spec bid (r_amt r)) as [|Hble]; [discriminate|].
+    cbn [orb]. intros E HB. pose proof HB as (Hnn & Hdn & Htot).
     pose proof (aget_Forall_key keq keq_ok nonneg _ _ _ Hnn Hg) as Hr. unfold nonneg in Hr; cbn in Hr.
     pose proof (aget_Forall_key keq keq_ok (denom_ok c) _ _ _ Hdn Hg) as Hd. unfold denom_ok in Hd; cbn in Hd.
     assert (Hdi : forall d, denom_is c debt d = (r_denom r =? d)) by (intros d; unfold denom_is; rewrite Hd; reflexivity).
-    destruct (Z.geb_spec (r_amt r) D) as [Hge|Hlt].
-    + destruct (Z.eqb_spec (r_amt r) D) as [He|Hne].
-      * injection E as <- <-. split; [|split; [reflexivity|]].
-        -- split; [apply Forall_adel; exact Hnn|]. split; [apply Forall_adel; exact Hdn|].
-           apply inv_tot_del; [exact Htot|]. fold k. rewrite Hg. lia.
-        -- intros d. rewrite (sum_denom_del _ k _ _ _ s eq_refl), Hg, Hdi. destruct (r_denom r =? d); lia.
-      * match type of E with (let '(_, _) := fill_recs _ _ _ _ _ ?x in _) = _ => set (s1 := x) in * end.
-        destruct (fill_recs debt coll prem D rest s1) as [s2 ch2] eqn:E2. injection E as <- <-.
-        assert (HB1 : LInvB c s1).
-        { split; [apply Forall_aset; [unfold nonneg; cbn; lia|exact Hnn]|].
+    match type of E with match fill_recs _ _ _ _ ?x with _ => _ end = _ => set (s1 := x) in * end.
+    destruct (fill_recs debt coll prem rest s1) as [[s2 ch2]|] eqn:E2; [|discriminate]. injection E as <- <-.
+    assert (HB1 : LInvB c s1 /\ forall d, sum_denom d s1 = sum_denom d s - (if denom_is c debt d then bid else 0)).
+    { unfold s1. destruct (Z.eqb_spec bid (r_amt r)) as [He|Hne].
+      - split.
+        + split; [apply Forall_adel; exact Hnn|]. split; [apply Forall_adel; exact Hdn|].
+          apply inv_tot_del; [exact Htot|]. fold k. rewrite Hg. lia.
+        + intros d. rewrite (sum_denom_del _ k _ _ _ s eq_refl), Hg, Hdi. destruct (r_denom r =? d); lia.
+      - split.
+        + split; [apply Forall_aset; [unfold nonneg; cbn; lia|exact Hnn]|].
           split; [apply Forall_aset; [exact Hd|exact Hdn]|].
-          apply inv_tot_set; [exact Htot|]. fold k. rewrite Hg. cbn [r_amt]. lia. }
-        destruct (IH s1 s2 ch2 E2 HB1) as (HB2 & Hl2 & Hs2). split; [exact HB2|]. split; [exact Hl2|].
-        intros d. rewrite Hs2. unfold s1. rewrite (sum_denom_set _ k _ _ _ _ s eq_refl), Hg, Hdi. cbn [r_amt r_denom].
-        destruct (r_denom r =? d); lia.
-    + match type of E with (let '(_, _) := fill_recs _ _ _ _ _ ?x in _) = _ => set (s1 := x) in * end.
-      destruct (fill_recs debt coll prem D rest s1) as [s2 ch2] eqn:E2. injection E as <- <-.
-      assert (HB1 : LInvB c s1).
-      { split; [apply Forall_adel; exact Hnn|]. split; [apply Forall_adel; exact Hdn|].
-        apply inv_tot_del; [exact Htot|]. fold k. rewrite Hg. lia. }
-      destruct (IH s1 s2 ch2 E2 HB1) as (HB2 & Hl2 & Hs2). split; [exact HB2|]. split; [exact Hl2|].
-      intros d. rewrite Hs2. unfold s1. rewrite (sum_denom_del _ k _ _ _ s eq_refl), Hg, Hdi.
-      destruct (r_denom r =? d); lia.
+          apply inv_tot_set; [exact Htot|]. fold k. rewrite Hg. cbn [r_amt]. lia.
+        + intros d. rewrite (sum_denom_set _ k _ _ _ _ s eq_refl), Hg, Hdi. cbn [r_amt r_denom].
+          destruct (r_denom r =? d); lia. }
+    destruct HB1 as (HB1 & Hs1).
+    destruct (IH s1 s2 ch2 E2 HB1) as (HB2 & Hl2 & Hc2 & Hs2). split; [exact HB2|]. split; [rewrite Hl2; unfold s1; reflexivity|].
+    split; [lia|]. intros d. rewrite Hs2, Hs1. destruct (denom_is c debt d); lia.
 Qed.
 
 (* the settlement moves the module's coins of one denom by exactly -spent, whatever the sign *)
@@ -318,7 +314,7 @@ Qed.
 Lemma lstep_invB c s o s' : LInvB c s -> lstep c s o = Ok s' -> LInvB c s'.
 Proof.
   intros HB. pose proof HB as (Hnn & Hdn & Htot).
-  destruct o as [who coll debt prem denom amt|who coll debt prem|who coll debt prem denom amt|debt coll prem D whos spent ok];
+  destruct o as [who coll debt prem denom amt|who coll debt prem|who coll debt prem denom amt|debt coll prem fills spent ok];
     cbn [lstep].
   - (* Deposit *)
     destruct ((coll =? 0) || (debt =? 0) || (amt <=? 0)) eqn:V; [discriminate|].
@@ -356,8 +352,8 @@ Proof.
     apply inv_tot_set; [exact Htot|]. fold k. rewrite Hg. cbn [r_amt]. lia.
   - (* AutoFill *)
     destruct ok; cbn [negb]; [|discriminate].
-    destruct (fill_recs debt coll prem D whos s) as [s1 ch] eqn:E1.
-    destruct (fill_recs_spec c _ _ _ _ _ _ _ _ E1 HB) as (HB1 & _ & _).
+    destruct (fill_recs debt coll prem fills s) as [[s1 ch]|] eqn:E1; [|discriminate].
+    destruct (fill_recs_spec c _ _ _ _ _ _ _ E1 HB) as (HB1 & _ & _).
     destruct (denom_of c debt) as [dd|]; [|intros E; injection E as <-; exact HB1].
     unfold lift. destruct (settle (led s1) dd spent) as [l'| |]; try discriminate.
     intros E. injection E as <-. exact HB1.
@@ -368,7 +364,7 @@ Lemma lstep_invC c l0 s o s' :
   fee_wf c -> LInvB c s -> LInvC l0 s -> env_ok s o -> lstep c s o = Ok s' -> LInvC l0 s'.
 Proof.
   intros Hfw HB HC (Hw & Hfe). pose proof HB as (Hnn & Hdn & Htot).
-  destruct o as [who coll debt prem denom amt|who coll debt prem|who coll debt prem denom amt|debt coll prem D whos spent ok];
+  destruct o as [who coll debt prem denom amt|who coll debt prem|who coll debt prem denom amt|debt coll prem fills spent ok];
     cbn [lstep who_of fill_env] in *.
   - (* Deposit *)
     destruct ((coll =? 0) || (debt =? 0) || (amt <=? 0)) eqn:V; [discriminate|].
@@ -407,8 +403,8 @@ Proof.
     rewrite S. unfold MOD in *. eqb_cases; lia.
   - (* AutoFill *)
     destruct ok; cbn [negb]; [|discriminate].
-    destruct (fill_recs debt coll prem D whos s) as [s1 ch] eqn:E1. cbn [snd] in Hfe.
-    destruct (fill_recs_spec c _ _ _ _ _ _ _ _ E1 HB) as (_ & Hl1 & Hs1).
+    destruct (fill_recs debt coll prem fills s) as [[s1 ch]|] eqn:E1; [|discriminate].
+    destruct (fill_recs_spec c _ _ _ _ _ _ _ E1 HB) as (_ & Hl1 & _ & Hs1).
     unfold denom_is in Hs1.
     destruct (denom_of c debt) as [dd|].
     + unfold lift. destruct (settle (led s1) dd spent) as [l'| |] eqn:S; try discriminate.
@@ -451,7 +447,7 @@ Qed.
 
 (* histories of messages only: the environment hypothesis is just "sent by bidder accounts" *)
 Definition is_msg (o : lop) : Prop :=
-  match o with AutoFill _ _ _ _ _ _ _ => False | _ => 0 <= who_of o end.
+  match o with AutoFill _ _ _ _ _ _ => False | _ => 0 <= who_of o end.
 
 Lemma env_run_msgs c ops : forall s, Forall is_msg ops -> env_run c s ops.
 Proof.
